@@ -462,6 +462,34 @@ def same_id_cases():
     return True
 
 
+def replaced_line_cases():
+    """an instance that was replaced by another line (a placeholder by the real line, a group line by a later line of the same group) is
+    not connected any more, and using it (rename, disconnect, tag) leaves the Gfa as it is"""
+    import gfapy
+    from bounded import state
+    for lines, held, second in ((["S\ta\t8\t*", "S\tb\t8\t*", "U\tu1\ta"], "u1", "U\tu1\tb"), (["S\ta\t8\t*", "S\tb\t8\t*", "E\te\ta+\tb+\t6\t8$\t0\t2\t*", "O\to1\ta+"], "o1", "O\to1\tb+"),
+                                (["S\ta\t8\t*", "U\tu1\ta x"], "x", "S\tx\t8\t*"), (["S\ta\t*", "L\ta\t+\tb\t+\t*"], "b", "S\tb\t*")):
+        g = gfapy.Gfa(lines, vlevel=0)
+        old = g.line(held)
+        g.add_line(second)
+        new = g.line(held)
+        if old is new:
+            return "%r then %r: the line was not replaced" % (lines, second)
+        if old.is_connected():
+            return "%r then %r: the replaced instance %r still reports to be connected" % (lines, second, str(old))
+        before = state.snapshot(g)
+        for what, f in (("rename", lambda: setattr(old, "name", "zz")), ("disconnect", lambda: old.disconnect()), ("tag", lambda: old.set("zz", 1))):
+            try:
+                f()
+            except gfapy.Error:
+                pass
+            except Exception as e:
+                return "%s of the replaced instance raised %s" % (what, type(e).__name__)
+            if state.snapshot(g) != before:
+                return "%r then %r: %s of the replaced instance changed the Gfa: %s" % (lines, second, what, state.snap_diff(before, state.snapshot(g)))
+    return True
+
+
 def segment_syntax_cases():
     """S lines of both syntaxes with 0-3 tags of every datatype, sequences and names that contain colons, too few / too many fields:
     Segment._subclass tells the syntax from the fields in front of the tags"""
